@@ -28,6 +28,7 @@ package exchange
 // pull: whatever the child does (result, error, end, panic), the consumer gets it through the buffer,
 // the buffer is closed exactly once at the end, and a panic is delivered as an error.
 //@ func (*concurrencyOperator).pull
+//@   assigns ghost chclosed, ghost chsent, ghost ended
 //@   requires c != nil && ctx != nil && c.next != nil && !closed(c.buffer) && c.buffer != nil
 //@   ghostvar nerr int = 0
 //@   at line "c.buffer <- maybeStepVector{err: fmt.Errorf(" set nerr = nerr + 1
@@ -48,6 +49,7 @@ package exchange
 
 // drainBufferOnCancel: receives only; nothing here can panic.
 //@ func (*concurrencyOperator).drainBufferOnCancel
+//@   assigns nothing
 //@   requires c != nil && ctx != nil
 //@   loop 0 invariant c != nil
 
